@@ -303,6 +303,7 @@ def run(ctx):
     broadcast_rule(ctx)
     fe_axis_drop(ctx)
     ctx.attempt(protocol_rule, ctx)
+    ctx.attempt(matrix_function_rank_rule, ctx)
 
 
 # ---------------------------------------------------------------------------
@@ -630,3 +631,34 @@ def protocol_rule(ctx):
         r.ok("broadcast(scalar) stays a scalar")
     else:
         r.fail(f"{LA}.FeArray", "bc:scalar", anchor.file, anchor.lineno, "FeArray.broadcast", "a scalar coefficient is not returned as a scalar")
+
+
+def matrix_function_rank_rule(ctx):
+    """R12.9: 'irrespective of coincidences': Transpose / Trace / Det / Inv handed a finite-element array that is NOT a
+    matrix field (a scalar field (Ne, nPg) with Ne == nPg, a vector field (Ne, nPg, n) with nPg == n) never treat the
+    element / integration-point axes as tensor axes: the call is rejected, or (Transpose) returns the field unchanged,
+    which is the per-point transpose of a scalar or a vector.  Interpreted under the protocol model."""
+    from ..femodel import Model, FeV
+
+    repo = ctx.repo
+    r = ctx.rule("R12.9", "Transpose / Trace / Det / Inv on a scalar or vector finite-element array (Ne == nPg == n) do not read the (Ne, nPg) axes as matrix axes: rejected, or the field itself for Transpose", min_instances=8)
+    M = Model(repo)
+    fields = {
+        "scalar field (2, 2)": FeV((2, 2), [Poly.var(f"s{e}{p}") for e in range(2) for p in range(2)]),
+        "vector field (2, 2, 2)": FeV((2, 2, 2), [Poly.var(f"v{e}{p}{i}") for e in range(2) for p in range(2) for i in range(2)]),
+    }
+    for fname in ("Transpose", "Trace", "Det", "Inv"):
+        f = repo.func(f"{LA}.{fname}")
+        for label, fe in fields.items():
+            r.instance(fn=f.qualname)
+            try:
+                out = M.I.call_function(f, [fe.copy()])
+            except XRaise:
+                r.ok(f"{fname}({label}) is rejected")
+                continue
+            same = isinstance(out, XArray) and out.shape == fe.shape and all(is_zero(Poly.of(a) - Poly.of(b)) for a, b in zip(out.data, fe.data))
+            if fname == "Transpose" and same:
+                r.ok(f"Transpose({label}) is the field itself")
+            else:
+                shp = out.shape if isinstance(out, XArray) else "a scalar"
+                r.fail(f.qualname, f"non-matrix:{label.split(' (')[0]}", f.file, f.lineno, fname, f"{fname} of a {label} returns {shp} computed over the element / integration-point axes: there is no matrix at the points of a {label.split(' (')[0]}; the (Ne, nPg) axes were read as tensor axes by a shape coincidence")
